@@ -19,10 +19,12 @@ def corpus(c, depth2, depth3):
     cases.sort(key=lambda x: json.dumps(x["e"], sort_keys=True))
     return cases
 
-def observe(c, cases, per_prog, nvals, features=(), limit=None):
-    """render, compile, run; returns path of the concatenated trace and number of programs"""
+def observe(c, cases, per_prog, nvals, features=(), limit=None, hooks_log=None):
+    """render, compile, run; returns path of the concatenated trace and number of programs. hooks_log: the programs are
+    linked against the library built with its trace hooks on, which append to that file (extension check X04)"""
     wd = c.wd
-    deps = rsprog.Deps(features)
+    deps = rsprog.Deps(features, hooks=bool(hooks_log))
+    if hooks_log: os.environ["SCALE_INFO_VERIF_TRACE"] = hooks_log
     chunks = G.chunk(cases, per_prog)
     if limit: chunks = chunks[:limit]
     pd = os.path.join(wd, "progs"); os.makedirs(pd, exist_ok=True)
